@@ -50,7 +50,8 @@ STUBS = [
 ]
 OUTSIDE = [
     "CBC (C05); estimate_diplotype (C11); the read-out loop minor.py:474-514 incl. the "
-    "homozygous-variant post-processing is exercised only by replays and the C05 tee",
+    "homozygous-variant post-processing is decided on feasible points with <=1 dropped "
+    "and <=1 added variant (mode 'readout'), elsewhere only by replays and the C05 tee",
     "more than 3 copies, more than 3 phase patterns, minor_phase_vars down-sampling",
 ]
 ASSUMPTIONS = [
@@ -106,6 +107,15 @@ def configs(tier):
             c.append({"gene": "GB", "genome": genome, "cn": ["1", "1"],
                       "major": {"2": 1, "5": 1}, "mode": "noise", "phase": None,
                       "added": True})
+    # read-out loop on arbitrary feasible points
+    for g, cn, mj in (("toy", ["1", "1"], {"1": 1, "3": 1}),
+                      ("GA", ["1", "1"], {"1": 1, "2": 1}),
+                      ("GB", ["1", "1"], {"2": 1, "5": 1})) + (
+            (("toy", ["1", "1"], {"2": 1, "3": 1}), ("GA", ["1", "6"], {"2": 1, "6": 1}))
+            if tier == "thorough" else ()):
+        for genome in ("hg19", "hg38"):
+            c.append({"gene": g, "genome": genome, "cn": cn, "major": mj,
+                      "mode": "readout", "phase": None})
     # phase configurations (concrete fragment patterns over catalogued sites)
     for genome in ("hg19", "hg38"):
         c.append({"gene": "toy", "genome": genome, "cn": ["1", "1"],
@@ -178,10 +188,139 @@ def make_phases(gene, muts, which):
     return ph
 
 
+def run_readout(cfg):
+    """
+    The read-out loop (minor.py:474-514, incl. the homozygous-variant post-processing) on
+    arbitrary feasible points of the model with at most one dropped and one added
+    variant: solve() is a stub with symbolic variable values, the real loop forks on every
+    value it reads; the MinorSolution it builds must be the decoded point.
+    """
+    import aldy.minor as minor
+    import aldy.common
+
+    res = new_result(cfg)
+    gene = gengene.load(cfg["gene"], cfg["genome"])
+    cn_list = list(cfg["cn"])
+    major = dict(cfg["major"])
+    profile = Profile("verif")
+    muts = considered(gene, major)
+    cands = minors_of(gene, major)
+    copies = [(a, mi, i) for (a, mi) in cands for i in range(major[a])]
+    cn_sol = CNSolution(gene, 0, cn_list)
+    base, xs, counts, totals = [], {}, {}, {}
+    for m in muts:
+        totals[m.pos] = D * stagelib.position_cn(gene, cn_list, m.pos)
+    bypos = collections.defaultdict(list)
+    for m in muts:
+        x = z3.Real(f"x_{m.pos}_{m.op}")
+        xs[m] = x
+        base += [x >= 0, x <= totals[m.pos]]
+        counts[m] = S(x)
+        if not stagelib.is_ins(m):
+            bypos[m.pos].append(x)
+    for pos in {m.pos for m in muts}:
+        alts = bypos.get(pos, [])
+        if alts:
+            base.append(z3.Sum(alts) <= totals[pos])
+        counts[Mutation(pos, "_")] = S(totals[pos] - (z3.Sum(alts) if alts else 0))
+    cov = stagelib.SymCoverage(gene, profile, counts, totals)
+    msol = MajorSolution(0, {SolvedAllele(gene, a): c for a, c in major.items()}, cn_sol, [])
+    eng = Engine(name="c04r", timeout_ms=120000)
+    tag = f"readout/{cfg['gene']}/{cfg['genome']}/" + "+".join(f"{k}x{v}"
+                                                               for k, v in major.items())
+    state = {}
+
+    def bound(model):
+        drop, add = [], []
+        for c in copies:
+            va = model.byraw.get(Names.A(*c))
+            for v in muts:
+                k = model.byraw.get(Names.K(v, *c))
+                n = model.byraw.get(Names.N(v, *c))
+                if k is not None and va is not None:
+                    drop.append(z3.If(z3.And(va.zv, z3.Not(k.zv)), 1, 0))
+                if n is not None:
+                    add.append(z3.If(n.zv, 1, 0))
+        return [z3.Sum(drop or [z3.IntVal(0)]) <= 1, z3.Sum(add or [z3.IntVal(0)]) <= 1]
+
+    saved_max = minor.__dict__.get("max")
+    minor.max = symx.smax
+
+    def run():
+        aldy.common.json.clear()
+        with symx.install(oracle=symx.PointOracle(eng, bound)) as inst:
+            r = minor.estimate_minor(gene, cov, [msol], "z3")
+            state["m"] = inst.models[-1] if inst.models else None
+            return r
+
+    max_cn = len(cn_list)
+    try:
+        for dec, pc, sols in eng.explore(run, base, max_paths=100000):
+            m = state["m"]
+            if m is None or not sols:
+                continue
+            st, mdl = eng.satisfiable([])
+            if st != "sat":
+                continue
+            val = {v.raw: bool(symx.model_value(mdl, v.zv)) for v in m.vars if v.kind == "B"}
+            want = []
+            for c in copies:
+                if not val.get(Names.A(*c)):
+                    continue
+                d = defn(gene, c[0], c[1])
+                missing = {v for v in d if not val.get(Names.K(v, *c))}
+                added = {v for v in muts if val.get(Names.N(v, *c))}
+                opt_hack = set()
+                for v in muts:
+                    if Names.N(v, *c) in val and v not in added:
+                        cn = stagelib.position_cn(gene, cn_list, v.pos)
+                        t = totals.get(v.pos, 0)
+                        if cn and t:
+                            obs = xs[v] * cn / t
+                            if eng.prove([], z3.And(obs - max_cn <= symx.q(1e-5),
+                                                    max_cn - obs <= symx.q(1e-5)))[0] == "unsat":
+                                opt_hack.add(v)
+                want.append((c[0], c[1], added, missing, opt_hack))
+            good = len(sols) == 1 and len(sols[0].solution) == len(want)
+            if good:
+                s = sols[0]
+                got = sorted(((a.major, a.minor, frozenset(a.added), frozenset(a.missing))
+                              for a in s.solution), key=repr)
+                exp = sorted(((w[0], w[1], frozenset(w[2] | w[4]), frozenset(w[3]))
+                              for w in want), key=repr)
+                good = (got == exp and s.major_solution is msol and isinstance(s.score, S)
+                        and z3.eq(z3.simplify(s.score.t), z3.simplify(m.obj_z3()))
+                        and sorted(i for h in s.get_diplotype() for i in h if i != -1)
+                        == list(range(len(s.solution))))
+            ob(res, f"{tag}: read-out builds exactly the decoded point (minor per copy, "
+                    "lost = un-kept, added = flagged + homozygous, objective, diplotype)",
+               "holds" if good else "sat")
+            if not good and not res["violations"]:
+                named = [c_.z3() for c_ in m.constrs if c_.name and c_.name[0] is not None]
+                fix = [(v.zv if val[v.raw] else z3.Not(v.zv)) for v in m.vars
+                       if v.kind == "B"]
+                violation(eng, res, cfg, xs, totals, named + fix, m.obj_z3(),
+                          f"read-out of a model point gives "
+                          f"{[x._solution_nice() for x in sols]}, decoded point is "
+                          f"{[(w[0], w[1], sorted(map(str, w[2])), sorted(map(str, w[3]))) for w in want]}",
+                          "readout")
+    finally:
+        if saved_max is None:
+            minor.__dict__.pop("max", None)
+        else:
+            minor.max = saved_max
+    res["stats"] = {**dict(eng.stats), **res["stats"]}
+    res["obligations"] = [{"label": o["label"], "status": o["status"], "secs": 0}
+                          for o in res["obligations"]]
+    return res
+
+
 def run_config(cfg):
     import aldy.minor as minor
     import aldy.common
 
+    if cfg["mode"] == "readout":
+        return run_readout(cfg)
     res = new_result(cfg)
     gene = gengene.load(cfg["gene"], cfg["genome"])
     cn_list = list(cfg["cn"])
